@@ -136,3 +136,24 @@ func init() {
 		checkC11Case(ctx, idx, rep)
 	}}
 }
+
+func init() {
+	Registry["C09"] = Monitor{Run: RunC09, Replay: func(ctx *core.Ctx, rep *core.Report, w map[string]any) {
+		idx, _ := witnessInt(w, "c09_case")
+		checkC09Case(ctx, idx, rep)
+	}}
+}
+
+func init() {
+	Registry["C15"] = Monitor{Run: RunC15, Replay: func(ctx *core.Ctx, rep *core.Report, w map[string]any) {
+		idx, _ := witnessInt(w, "c15_case")
+		checkC15Case(ctx, idx, rep)
+	}}
+}
+
+func init() {
+	Registry["C14"] = Monitor{Run: RunC14, Replay: func(ctx *core.Ctx, rep *core.Report, w map[string]any) {
+		idx, _ := witnessInt(w, "c14_case")
+		checkC14Case(ctx, idx, rep)
+	}}
+}
